@@ -23,7 +23,8 @@
                   (`skipWSC_append`, `two_gaps_same_rest`, `skipWSC_idem`, `gap_concat`).
     3. Case.      `util.lower` maps every case variant of a lower-case keyword to the keyword
                   (`lower_kw`), every consumer in the parser model sees the text only through
-                  `lower` (unfolding lemmas `parseLoop_*`, `parseAttribute_eq`), all keyword tables
+                  `lower` (unfolding lemmas `parseLoop_*`, `parseAttribute_eq`; the `of` group is
+                  only tested for emptiness, `parseLoop_nth_child_of`), all keyword tables
                   are in lower case, and a case-insensitive keyword literal of a token regex matches
                   every case variant in the engine model (`runs_kw_case`).
     4. Quotes.    The hand model `unescapeString` of `css_unescape(…, string=True)` decodes the
@@ -153,6 +154,24 @@ theorem ident_token_spelling_irrelevant (f₁ f₂ : List (Nat × EscForm)) (r :
     scan_any_spelling_ctx f₂ r h₂ hh₂ hr, ?_⟩
   rw [unescape_any_spelling_fine f₁ (validForms_nil_of f₁ r h₁) hcp₁,
     unescape_any_spelling_fine f₂ (validForms_nil_of f₂ r h₂) hcp₂, hval]
+
+/-- C10 as an instance: the text `escape s` IS one of the spellings quantified over above (of the
+    value `s` with NUL as U+FFFD), admissible in front of any text. -/
+theorem escape_is_a_spelling (s : Str) :
+    ∃ forms, escape s = renderIdentWith forms ∧ valueOf forms = nulToFFFD s ∧
+      (∀ r, validForms forms r = true) ∧ ∀ p ∈ forms, rangeOk p.1 p.2 = true :=
+  escape_spells s
+
+/-- … so `C10.unescape_escape` is a corollary of `unescape_any_spelling_fine`. -/
+theorem unescape_escape_of_any_spelling (s : Str) : cssUnescape (escape s) = nulToFFFD s := by
+  obtain ⟨forms, ht, hval, hv, hr⟩ := escape_is_a_spelling s
+  rw [ht, unescape_any_spelling_fine forms (hv []) hr, hval]
+
+/-- Any admissible spelling of the code points of `s` has the same value as `escape s`. -/
+theorem any_spelling_eq_escape (forms : List (Nat × EscForm)) (s : Str) (hv : Valid forms)
+    (hcp : ∀ p ∈ forms, rangeOk p.1 p.2 = true) (hs : valueOf forms = nulToFFFD s) :
+    cssUnescape (renderIdentWith forms) = cssUnescape (escape s) := by
+  rw [unescape_any_spelling_fine forms hv hcp, hs, C10.unescape_escape]
 
 /-! ## 2. Whitespace and comments -/
 
@@ -461,6 +480,56 @@ theorem parseLoop_nth_type (h : nextToken ⟨env, L, B, pattern⟩ s.pos = .ok (
     subst this
     simp
 
+/-- The selector `:nth-child` / `:nth-last-child` adds, from the lower-cased name and An+B text. -/
+def nthChildSel (P : PEnv) (t : Token) (sel : SelB) (nthSel : SelList) : SelB :=
+  let name := lower (Parser.cssUnescape P.env P.L ((t.group P "name").getD []))
+  let anb := parseAnB P (lower ((t.group P "nth_child").getD []))
+  if name == ":nth-child".toStr then sel.addNth [nthOf anb.1 anb.2.1 anb.2.2 false false nthSel]
+  else if name == ":nth-last-child".toStr then sel.addNth [nthOf anb.1 anb.2.1 anb.2.2 false true nthSel]
+  else sel
+
+/-- `:nth-child(An+B)` without `of S`. -/
+theorem parseLoop_nth_child (h : nextToken ⟨env, L, B, pattern⟩ s.pos = .ok (some t))
+    (hk : t.name = "pseudo_nth_child")
+    (hchild : ∃ g, t.group ⟨env, L, B, pattern⟩ "pseudo_nth_child" = some g ∧ g ≠ [])
+    (hof : ∀ g, t.group ⟨env, L, B, pattern⟩ "of" = some g → g = []) :
+    parseLoop env L B pattern (fuel + 1) flags s =
+      parseLoop env L B pattern fuel flags
+        { s with pos := t.stop, sel := nthChildSel ⟨env, L, B, pattern⟩ t s.sel B.nthOfSDefault,
+                 hasSelector := true, index := t.stop } := by
+  obtain ⟨g, hg, hne⟩ := hchild
+  have hge : g.isEmpty = false := by cases g <;> simp at hne ⊢
+  rw [parseLoop]
+  simp only [h, hk]
+  cases ho : Token.group ⟨env, L, B, pattern⟩ t "of" with
+  | none => simp [hg, hge, nthChildSel]
+  | some o =>
+    have := hof o ho
+    subst this
+    simp [hg, hge, nthChildSel]
+
+/-- `:nth-child(An+B of S)`: the text of the `of` group is only tested for emptiness — its letter
+    case (and the whitespace and comments around it, which are part of the group) is never
+    looked at. -/
+theorem parseLoop_nth_child_of (h : nextToken ⟨env, L, B, pattern⟩ s.pos = .ok (some t))
+    (hk : t.name = "pseudo_nth_child")
+    (hchild : ∃ g, t.group ⟨env, L, B, pattern⟩ "pseudo_nth_child" = some g ∧ g ≠ [])
+    (hof : ∃ g, t.group ⟨env, L, B, pattern⟩ "of" = some g ∧ g ≠ [])
+    (nthSel : SelList) (pos' : Nat) (custom' : Custom)
+    (hsub : parseSelectors env L B pattern fuel t.stop t.stop (FLG_PSEUDO ||| FLG_OPEN) s.custom =
+      .ok (nthSel, pos', custom')) :
+    parseLoop env L B pattern (fuel + 1) flags s =
+      parseLoop env L B pattern fuel flags
+        { s with pos := pos', sel := nthChildSel ⟨env, L, B, pattern⟩ t s.sel nthSel,
+                 hasSelector := true, index := t.stop, custom := custom' } := by
+  obtain ⟨g, hg, hne⟩ := hchild
+  have hge : g.isEmpty = false := by cases g <;> simp at hne ⊢
+  obtain ⟨o, ho, hone⟩ := hof
+  have hoe : o.isEmpty = false := by cases o <;> simp at hone ⊢
+  rw [parseLoop]
+  simp only [h, hk]
+  simp [hg, hge, ho, hoe, hsub, nthChildSel]
+
 end Loop
 
 /-! ### Case-insensitive keyword literals in the engine model
@@ -666,7 +735,8 @@ example : Rx.runsSeq asciiEnv "x oF y".toStr (kwRx "of".toStr) 2 [] = [(4, [])] 
     * gaps inside `[ ]`, `( )`, around combinators and commas, at both ends: `skipWSC_append_gen`,
       `two_gaps_same_rest`, `gap_concat`;
     * keywords: `runs_kw_mixCase` (same match in the engine), then `parseLoop_dir`,
-      `parseLoop_nth_type`, `parseLoop_pseudo_simple`, `parseLoop_attribute` + `parseAttribute_eq`
+      `parseLoop_nth_type`, `parseLoop_nth_child`, `parseLoop_nth_child_of` (the `of` group is only
+      tested for emptiness), `parseLoop_pseudo_simple`, `parseLoop_attribute` + `parseAttribute_eq`
       (the text reaches the selector only through `lower`), `lower_kw`, `attr_flag_i/s`, `dir_ltr/rtl`,
       `parseAnB_even/odd/case`, `pseudo_tables_lowercase`;
     * values: `scanString_any_spelling`, `string_any_spelling`, `value_spelling_irrelevant`.
